@@ -153,6 +153,51 @@ static void *caller_main(void *p)
 	return NULL;
 }
 
+/* ------------------------------------------------------------------ several clients sharing one pool (tp.multi)
+ * thread 0 = pool owner: threadpool_init, starts the clients, joins them, threadpool_destroy;
+ * each client: result_handler_init, n x threadpool_dispatch, result_handler_destroy.  No Lean machine runs alongside
+ * (the machine has one client); the scheduler itself reports a dead-lock (nobody enabled before the owner is done), mutex
+ * misuse, and the run reports every client's deliveries and the largest worker count seen. */
+#define MAXC 8
+static int g_clients; static long mdel[MAXC][4096]; static int mndel[MAXC]; static size_t g_maxcount;
+static void mrcb(void *res, void *cbdata) { int c = (int)(intptr_t)cbdata; if (mndel[c] < 4096) mdel[c][mndel[c]++] = (long)(intptr_t)res - 1; }
+static void *client_main(void *p)
+{
+	int c = (int)(intptr_t)p;
+	struct result_handler *rh = result_handler_init(mrcb, (void *)(intptr_t)c);
+	for (int j = 0; j < g_jobs; j++)
+		threadpool_dispatch(g_pool, rh, g_ord, job, (void *)(intptr_t)(j + 1));
+	result_handler_destroy(&rh);
+	return NULL;
+}
+static void *owner_main(void *p)
+{
+	(void)p;
+	pthread_t th[MAXC];
+	g_pool = threadpool_init(g_max);
+	for (int c = 0; c < g_clients; c++) vs_create(&th[c], NULL, client_main, (void *)(intptr_t)c);
+	for (int c = 0; c < g_clients; c++) vs_join(th[c], NULL);
+	threadpool_destroy(&g_pool);
+	return NULL;
+}
+static int enabled(int i);
+static void print_multi(void)
+{
+	static char out[16384]; char *p = out;
+	if (T[0].st != T_DONE && g_pool && g_pool->count > g_maxcount) g_maxcount = g_pool->count;
+	p += sprintf(p, "mst %s maxcount=%zu", T[0].st == T_DONE ? "done" : "run", g_maxcount);
+	for (int c = 0; c < g_clients; c++) {
+		p += sprintf(p, " del%d=[", c);
+		for (int i = 0; i < mndel[c]; i++) p += sprintf(p, "%s%ld", i ? "," : "", mdel[c][i]);
+		p += sprintf(p, "]");
+	}
+	int en = 0, sl = 0;
+	for (int i = 0; i < nT; i++) { if (enabled(i)) en++; if (T[i].st == T_COND && !T[i].signalled) sl++; }
+	p += sprintf(p, " en=%d sl=%d threads=%d", en, sl, nT);
+	if (problem[0]) p += sprintf(p, " PROBLEM=%s", problem);
+	puts(out);
+}
+
 /* ------------------------------------------------------------------ controller */
 static int enabled(int i)
 {
@@ -239,7 +284,34 @@ int main(void)
 			print_state();
 			continue;
 		}
+		if (!strncmp(line, "tp.multi", 8)) {
+			if (started) { puts("bad-op"); continue; }
+			started = 2;
+			g_max = 1; g_jobs = 0; g_ord = 1; g_clients = 2;
+			char *s;
+			if ((s = strstr(line, "max="))) g_max = atoi(s + 4);
+			if ((s = strstr(line, "jobs="))) g_jobs = atoi(s + 5);
+			if ((s = strstr(line, "ord="))) g_ord = atoi(s + 4);
+			if ((s = strstr(line, "clients="))) g_clients = atoi(s + 8);
+			if (g_clients < 1 || g_clients > MAXC) { puts("bad-op"); continue; }
+			sem_init(&back, 0, 0);
+			nT = 1; T[0].st = T_READY; T[0].fresh = 0; sem_init(&T[0].go, 0, 0); T[0].fn = owner_main;
+			ncreate = 1;                                        /* every creation is a scheduling point here */
+			pthread_create(&T[0].real, NULL, tramp, (void *)(intptr_t)0);
+			turn(0);
+			print_multi();
+			continue;
+		}
 		if (!started) { puts("bad-op"); continue; }
+		if (started == 2 && !strncmp(line, "tp.auto ", 8)) {
+			unsigned long r = strtoul(line + 8, NULL, 10);
+			int cand[MAXT], nc = 0, sl[MAXT], ns = 0;
+			for (int i = 0; i < nT; i++) { if (enabled(i)) cand[nc++] = i; if (T[i].st == T_COND && !T[i].signalled) sl[ns++] = i; }
+			if (ns > 0 && (r >> 16) % 8 == 0) { int i = sl[(r >> 8) % ns]; T[i].signalled = 1; printf("pick s:t%d ", i); print_multi(); continue; }
+			if (nc == 0) { printf("pick none "); print_multi(); continue; }
+			int i = cand[r % nc]; printf("pick t%d ", i);
+			turn(i); print_multi(); continue;
+		}
 		if (!strncmp(line, "tp.step ", 8)) {
 			const char *w = line + 8; int spur = 0;
 			if (!strncmp(w, "s:", 2)) { spur = 1; w += 2; }
